@@ -153,6 +153,7 @@ def tree_shas(repo, n):
 
 def run_native(ctx, h, idx, root):
     from breezy import branch as B
+    cc.set_names(idx)
     n = len(h["P"])
     work = tempfile.mkdtemp(prefix="c35-", dir=root)
     b = cc.materialise(ctx, h, os.path.join(work, "src"))
@@ -287,6 +288,7 @@ def run_git(ctx, h, idx, root):
     objects (and push them to a second git repository)."""
     from breezy import branch as B
     from breezy.git.mapping import default_mapping
+    cc.set_names(idx)
     work = tempfile.mkdtemp(prefix="c35g-", dir=root)
     o = {"ok": True, "orig": [], "exp": []}
     try:
